@@ -14,6 +14,8 @@ git -C /repo worktree add --detach -f $W HEAD >/dev/null 2>&1 || { echo "worktre
 trap 'git -C /repo worktree remove --force "$W" >/dev/null 2>&1; rm -rf "$W"' EXIT
 mkdir -p $W/_seedkit && cp -r /verif/harness/stubs $W/_seedkit/stubs && cp /verif/selftest/seedkit/build_lib.sh /verif/selftest/seedkit/build_lib_xml.sh $W/_seedkit/
 cp $DST/demo.* $W/ 2>/dev/null; mkdir -p $W/_seed && cp $DST/demo.* $W/_seed/ 2>/dev/null
+# demos may mention the seeding agent's worktree (e.g. to assert which copy of a Python package is imported)
+sed -i "s#/tmp/seed-$N#$W#g" $W/demo.* $W/_seed/demo.* 2>/dev/null
 BUILD=$(python3 -c "import json;print(json.load(open('$DST/meta.json')).get('demo_build_cmd',''))")
 RUN=$(python3 -c "import json;print(json.load(open('$DST/meta.json')).get('demo_run_cmd',''))")
 BUILD=${BUILD//\/tmp\/seed-$N/$W}; RUN=${RUN//\/tmp\/seed-$N/$W}
